@@ -125,61 +125,132 @@ T2 = {
 }
 
 
-def main():
+# third round (same brief + "put at least one change outside zeromq.py / on the other side / in a helper or error path");
+# delivered under /tmp/mut3_<id>
+T3 = {
+ 'C01_1': ('C01', ['C01'], '', 'relay whose consumer asks for a newer id than the frame in hand (tee-rejoin, one branch returns None for id k while the other still processes k): the frame is re-labelled k+1 instead of discarded',
+           'C01 quick: rejoin_roots in 143 runs'),
+ 'C01_2': ('C01', ['C01'], '', 'explicit topic list with >=2 topics; after a skipped id the source publishes an id with none of the subscribed topics: the per-source template loses a topic for good, later sets are handed over with one topic missing',
+           'C01 quick: partial_set in 53 runs'),
+ 'C02_1': ('C02', ['C02'], '', 'raw image sent zero-copy from any *contiguous* buffer: a Fortran-ordered image goes out in memory order (mq.py, sender side)',
+           'C02 quick: image_altered_on_send in 114 runs'),
+ 'C02_2': ('C02', ['C02'], '', 'named-topic subscription without its closing delimiter: a topic whose name merely STARTS with a subscribed name is delivered',
+           'C02 quick: unsubscribed_delivered in 18 runs'),
+ 'C03_1': ('C03', ['C03'], '', 'a deferred result that turns out None uses up a message id (sender side): downstream waits for / skips an id',
+           'C03 quick: sequence_mismatch / deferred_never in 102 runs'),
+ 'C03_2': ('C03', ['C03'], '', 'deferred result evaluating to {} treated like None (filter.py wrapper)',
+           'C03 quick: sequence_mismatch / deferred_early in 290 runs'),
+ 'C04_1': ('C04', ['C04'], 'C04 generates relays with `sources_timeout` and bounds the publishers UPSTREAM of the stalled consumer\'s publisher too ("each publisher feeding it")',
+           'relay configured with sources_timeout only: outputs_timeout is derived from it (copy/paste slip in Filter.init), the relay drops frames for a stalled consumer and keeps pulling from upstream',
+           'C04 quick: unbounded_publish_upstream in 139 runs'),
+ 'C04_2': ('C04', ['C04'], 'C04 generates publishers bound on two addresses (not balancing) with synchronized consumers on different ones',
+           'publisher with more than one bind address, not balancing, consumers on different addresses, one stalls: "everybody requested" evaluated per address',
+           'C04 quick: unbounded_publish (997 frames in the window)'),
+ 'C05_2': ('C05', ['C04'], '', 'request uid per receiver instead of per connection (the twice-attached client-record clash again, from the receiver side)',
+           'C04 quick: unbounded_publish in 39 runs; C05 quick: only the known twice-attached finding'),
+ 'C06_1': ('C06', ['C06'], '', 'stale connection of a *required* output never dropped: after the required consumer is restarted the publisher waits for the dead connection for ever',
+           'C06 quick: no_progress in 289 runs'),
+ 'C06_2': ('C06', ['C06'], 'C06 profile gained ephemeral listeners, the eph_rejoin shape and late faults (ids far from their initial values)',
+           'filter whose sources are all ephemeral, restarted while its synchronized consumer stays up: MQ.send drops the id jump of a discarded send, the new instance creeps up to the expected id one frame at a time (outage proportional to uptime)',
+           'C06 quick: no_progress (1 run in ~500: rare at quick budgets)'),
+ 'C07_1': ('C07', ['C07'], 'C07 gained the balance-restart profile (graceful and hard restarts of workers / splitter / rejoin)',
+           'a worker\'s request and its graceful CLOSE consumed by the splitter in one send(): the selected output has no client left and the frame is published on every branch',
+           'C07 quick: multi_branch in 10 runs'),
+ 'C07_2': ('C07', ['C07'], 'the balanced rejoin may decimate through a deferred result that yields None',
+           'sources_balance joiner with outputs and a callable-returning process() yielding None + a delayed older frame of a slower worker: stale lower id becomes the receive minimum',
+           'C07 quick: order in 43 runs'),
+ 'C08_1': ('C08', ['C08'], 'C08 gives loop_exc=False to neighbours of the failing filter (this also exposed a genuine defect, repaired by 28ac49b)',
+           'Filter.exit() dedupes on a private flag and no longer sets the stop event: a filter with loop_exc=False that obeys an exit keeps running',
+           'C08 quick: did_not_obey / ended_unexpectedly in 58 runs'),
+ 'C08_2': ('C08', ['C08'], '', 'exceptions of the OOB callback swallowed by the sender: an obeyed exit announced by a downstream neighbour is logged and ignored',
+           'C08 quick: ended_unexpectedly / did_not_obey in 58 runs'),
+ 'C10_1': ('C10', ['C10'], '', 'read-only GRAY source: g.rgb.bgr / g.rgb.ro_bgr return the 2-D GRAY frame (source cached on the converted frame as the opposite conversion)',
+           'C10 quick: stale_view in 107 histories'),
+ 'C10_2': ('C10', ['C10'], '', 'pickle / deepcopy of a read-only raw frame whose .jpg was read before: pixels replaced by decode(encode(pixels))',
+           'C10 quick: stale_view (pickle) in 558 histories'),
+ 'C13_1': ('C13', ['C13'], 'text records now contain characters that str.splitlines() treats as boundaries (\\r, \\x0b, \\x85, U+2028, ...) and multi-byte characters',
+           'txt mode, read_block(), a record containing \\r / \\x0b / \\x0c / \\x1c-\\x1e / \\x85 / U+2028: torn into several records',
+           'C13 quick: torn in 14507 histories'),
+ 'C13_2': ('C13', ['C13'], '', 'external deletion of an older file + one prune that must remove >=2 files: FileNotFoundError aborts the prune loop, directory stays over total_size',
+           'C13 quick: budget in 202 histories'),
+ 'C14_1': ('C14', ['C14'], '', 'constructor adopts a leftover <head>.tmp when the head file does not exist: kill during the very first save leaves an empty temp file that becomes the head',
+           'C14 quick: corrupt_head in 10656 histories'),
+ 'C14_2': ('C14', ['C14'], '', 'tell() reports the past-the-end state as ("end", 0): saved and restored after the writer logged more, everything in between is skipped',
+           'C14 quick: resume_position in 179 histories'),
+ 'C15_1': ('C15', ['C15'], 'C15 lets the main loop swallow the injected exception (loop_exc=False)',
+           'loop_exc=False and an exception text quoting the URI: logger.exception appends the traceback whose last line is the raw str(exc) (patch rebased onto 28ac49b, the original is patch_orig.diff)',
+           'C15 quick: leak_log in 54 runs'),
+ 'C15_2': ('C15', ['C15'], '', 'VideoReader unquotes its source before masking: %40 / %20 inside the password defeat the mask (log line and meta.src on the wire)',
+           'C15 quick: leak_log / leak_wire in 335 runs'),
+ 'C18_1': ('C18', ['C18'], '', 'obeyed CLEAN exit of a neighbour passes exc=False instead of None: terminal is ABORT instead of COMPLETE',
+           'C18 quick: wrong_terminal in 316 runs'),
+ 'C18_2': ('C18', ['C18'], 'lineage backend fault: the event is delivered but emit() raises (answer lost)',
+           'client.emit() raises for the terminal event although the backend got it: the terminal flag is not set and a second terminal follows',
+           'C18 quick: terminal_twice in 199 runs'),
+}
+
+NOT_KEPT = """
+Not kept: a first C01 change of round 1 (MQ.send clearing send_state before the send is known to have gone out; caught by
+C01 rejoin_roots) deterministically fails the existing test tests/test_filter.py::TestFilterOld::test_topo_balance_step.
+C05-r3-1 ('?' listener gates its endpoint of a load-balancing publisher) only manifests with a '?' tap on an
+`outputs_balance` publisher, which the documentation rules out ("no ephemeral channels within the balanced section",
+"don't plug into something that is load balancing outputs"); the generators do not produce that configuration, no check
+catches it, and it is not counted.
+"""
+
+
+def _tests(path):
     tests = {}
-    if len(sys.argv) > 1 and os.path.exists(sys.argv[1]):
-        for line in open(sys.argv[1]):
+    if path and os.path.exists(path):
+        for line in open(path):
             m = re.match(r'(C\d\d_\d) (.*)', line.strip())
             if m:
                 tests[m.group(1)] = m.group(2)
+    return tests
+
+
+def _round(table, prefix, sid_of, tests, rows):
+    for mid, (prop, caught, strengthened, needs, reported) in sorted(table.items()):
+        src = prefix + mid
+        sid = sid_of(mid, prop)
+        dst = os.path.join(HERE, 'seeded', sid)
+        mpath = os.path.join(dst, 'meta.json')
+        if os.path.exists(mpath) and mid not in tests:
+            meta = json.load(open(mpath))          # keep what was recorded when the change was confirmed
+        else:
+            os.makedirs(dst, exist_ok=True)
+            for f in ('patch.diff', 'patch_orig.diff', 'demo.py', 'notes.md'):
+                if os.path.exists(os.path.join(src, f)):
+                    shutil.copy(os.path.join(src, f), os.path.join(dst, f))
+            meta = {'id': sid, 'breaks_property': prop, 'needs_to_manifest': needs,
+                    'what_was_run': {'demo': 'demo.py exits 1 with patch.diff applied and 0 without (own confirmation in a scratch copy)',
+                                     'existing_tests_with_patch': tests.get(mid, 'see notes.md (sub-agent run); own confirmation pending'),
+                                     'checks': reported},
+                    'caught_by_checks': caught, 'check_strengthened': strengthened or None}
+            json.dump(meta, open(mpath, 'w'), indent=1)
+        rows.append((sid, meta['breaks_property'], ', '.join(meta['caught_by_checks']), meta.get('check_strengthened') or '-',
+                     meta['what_was_run']['checks']))
+
+
+def main():
+    """args: [tests-log round 1] [tests-log round 2] [tests-log round 3]; a change whose meta.json exists and that has no
+    line in the given log keeps its recorded meta.json."""
+    a = sys.argv[1:] + [None] * 3
     rows = []
-    for mid, (prop, caught, strengthened, needs, reported) in sorted(T.items()):
-        src = f'/tmp/mut_{mid}'
-        sid = mid.replace('_', '-')
-        dst = os.path.join(HERE, 'seeded', sid)
-        os.makedirs(dst, exist_ok=True)
-        for f in ('patch.diff', 'demo.py', 'notes.md'):
-            if os.path.exists(os.path.join(src, f)):
-                shutil.copy(os.path.join(src, f), os.path.join(dst, f))
-        meta = {'id': sid, 'breaks_property': prop, 'needs_to_manifest': needs,
-                'what_was_run': {'demo': 'demo.py exits 1 with patch.diff applied and 0 without (own confirmation in a scratch worktree)',
-                                 'existing_tests_with_patch': tests.get(mid, 'see notes.md (sub-agent run); own confirmation pending'),
-                                 'checks': reported},
-                'caught_by_checks': caught, 'check_strengthened': strengthened or None}
-        json.dump(meta, open(os.path.join(dst, 'meta.json'), 'w'), indent=1)
-        rows.append((sid, prop, ', '.join(caught), strengthened or '-', reported))
-    tests2 = {}
-    if len(sys.argv) > 2 and os.path.exists(sys.argv[2]):
-        for line in open(sys.argv[2]):
-            m = re.match(r'(C\d\d_\d) (.*)', line.strip())
-            if m:
-                tests2[m.group(1)] = m.group(2)
-    for mid, (prop, caught, strengthened, needs, reported) in sorted(T2.items()):
-        src = f'/tmp/mut2_{mid}'
-        sid = f'{prop}-r2-{mid[-1]}' if mid.startswith(prop) else f'{mid[:3]}-r2-{mid[-1]}'
-        dst = os.path.join(HERE, 'seeded', sid)
-        os.makedirs(dst, exist_ok=True)
-        for f in ('patch.diff', 'demo.py', 'notes.md'):
-            if os.path.exists(os.path.join(src, f)):
-                shutil.copy(os.path.join(src, f), os.path.join(dst, f))
-        meta = {'id': sid, 'breaks_property': prop, 'needs_to_manifest': needs,
-                'what_was_run': {'demo': 'demo.py exits 1 with patch.diff applied and 0 without (own confirmation in a scratch worktree)',
-                                 'existing_tests_with_patch': tests2.get(mid, 'see notes.md (sub-agent run); own confirmation pending'),
-                                 'checks': reported},
-                'caught_by_checks': caught, 'check_strengthened': strengthened or None}
-        json.dump(meta, open(os.path.join(dst, 'meta.json'), 'w'), indent=1)
-        rows.append((sid, prop, ', '.join(caught), strengthened or '-', reported))
+    _round(T, '/tmp/mut_', lambda mid, prop: mid.replace('_', '-'), _tests(a[0]), rows)
+    _round(T2, '/tmp/mut2_', lambda mid, prop: f'{prop}-r2-{mid[-1]}' if mid.startswith(prop) else f'{mid[:3]}-r2-{mid[-1]}',
+           _tests(a[1]), rows)
+    _round(T3, '/tmp/mut3_', lambda mid, prop: f'{mid[:3]}-r3-{mid[-1]}', _tests(a[2]), rows)
     with open(os.path.join(HERE, 'seeded', 'INDEX.md'), 'w') as f:
         f.write('# Seeded changes (independent sub-agents: property text + scratch worktree only)\n\n')
         f.write('Each directory holds patch.diff, demo.py (fails with the change, passes without), notes.md (the author\'s) and '
-                'meta.json. Run one against the checks with `./tools_seeded.sh seeded/<id> <PROP>` (scratch copy, /repo untouched).\n\n')
+                'meta.json. Run one against the checks with `./tools_seeded.sh seeded/<id> <PROP>` (scratch copy, /repo untouched); '
+                '`./tools_seeded_regress.sh` re-runs all of them.\n\n')
         f.write('| id | breaks | caught by | check strengthened because of it | what the check reports |\n|---|---|---|---|---|\n')
         for r in rows:
             f.write('| ' + ' | '.join(r) + ' |\n')
         f.write(f'\n{len(rows)} kept, {sum(1 for r in rows if r[2])} caught by at least one check.\n')
-        f.write('\nRejected: a first C01 change (MQ.send clearing send_state before the send is known to have gone out; '
-                'caught by C01 rejoin_roots) deterministically fails the existing test '
-                'tests/test_filter.py::TestFilterOld::test_topo_balance_step, so it does not meet the criteria and is not kept.\n')
+        f.write(NOT_KEPT)
     print(len(rows), 'seeded changes indexed')
 
 
